@@ -471,7 +471,7 @@ class FilterCtdMin(FilterBase):
             depth = self.depth.value
 
             try:
-                slope = (inval - self.lastInval) / (indepth - self.lastDepth)
+                slope = (inval - self.lastInval) / (depth - self.lastDepth)
             except ZeroDivisionError:
                 slope = 0.0
 
